@@ -39,6 +39,9 @@ TRUSTED_BASE = [
 # ---------------------------------------------------------------------------
 # s-expressions (wire format of the line protocol)
 # ---------------------------------------------------------------------------
+_NEEDS_QUOTE = re.compile(r'[\s()]')
+
+
 def sexp(x) -> str:
     if isinstance(x, (list, tuple)):
         return '(' + ' '.join(sexp(y) for y in x) + ')'
@@ -47,7 +50,7 @@ def sexp(x) -> str:
     if x is None:
         return 'none'
     s = str(x)
-    if s == '' or any(c.isspace() or c in '()' for c in s):
+    if s == '' or _NEEDS_QUOTE.search(s):
         assert '"' not in s, s
         return '"' + s + '"'
     return s
@@ -100,16 +103,18 @@ def lean_build(targets: list[str], clean: bool = False) -> tuple[bool, str]:
     return rc == 0, (out + err)
 
 
-def lean_driver(lines: list[str], pid: str, timeout=3000) -> list[str]:
+def lean_driver(lines: list[str], pid: str, timeout=3000, exe: str | None = None) -> list[str]:
     """Pipe request lines through the model driver of property `pid`
-    (lean/Main<pid>.lean, importing BearVerif.Driver.<pid>); one response line per request."""
+    (lean/Main<pid>.lean, importing BearVerif.Driver.<pid>); one response line per request.
+    With `exe` (a lean_exe target of lean/lakefile.toml whose imports are Mathlib-free) the
+    driver is compiled to native code (same source, ~50x faster than `lean --run`)."""
     if pid not in _DRIVER_BUILT:
-        _DRIVER_BUILT[pid] = lean_build([f'BearVerif.Driver.{pid}', 'BearVerif.Core.Loop'])  # once per process
+        _DRIVER_BUILT[pid] = lean_build([f'BearVerif.Driver.{pid}', 'BearVerif.Core.Loop'] + ([exe] if exe else []))
     ok, log = _DRIVER_BUILT[pid]
     if not ok:
         raise DriverError(f'driver of {pid} does not build: {log[-3000:]}')
-    rc, out, err = run(['lake', 'env', 'lean', '--run', f'Main{pid}.lean'], cwd=LEAN,
-                       input='\n'.join(lines) + '\n', timeout=timeout)
+    cmd = [str(LEAN / '.lake/build/bin' / exe)] if exe else ['lake', 'env', 'lean', '--run', f'Main{pid}.lean']
+    rc, out, err = run(cmd, cwd=LEAN, input='\n'.join(lines) + '\n', timeout=timeout)
     res = out.splitlines()
     if rc != 0 or len(res) != len(lines):
         raise DriverError(f'driver rc={rc} lines={len(res)}/{len(lines)} stderr={err[-2000:]}')
